@@ -21,6 +21,7 @@ from ref import sighash as RS
 from ref import wire as RW
 from ref import base58 as RB58
 from sim import conv, gen, seams
+HALF_N = EC.HALF_N
 from sim.kernel import Engine, StopRun
 
 N = EC.N
@@ -65,6 +66,24 @@ class Sign(Engine):
             return rng.randrange(1, 1 << rng.choice([8, 64, 200, 248]))
         return rng.randrange(1, N)
 
+    def gen_sigint(self, rng):
+        """r or s of a signature: every byte-length class of the DER integer, and the edges of [1, n-1]."""
+        q = rng.random()
+        if q < 0.25:
+            v = rng.randint(1, 127)
+        elif q < 0.35:
+            v = rng.randint(128, 255)
+        elif q < 0.55:
+            bits = rng.randint(9, 255)
+            v = rng.choice([(1 << bits) - 1, 1 << bits, (1 << bits) + rng.randint(1, 1000), rng.getrandbits(bits) | 1 << (bits - 1)])
+        elif q < 0.65:
+            v = N - rng.randint(1, 300)
+        elif q < 0.72:
+            v = HALF_N + rng.randint(-2, 2)
+        else:
+            v = rng.randint(1, N - 1)
+        return '%064x' % max(1, min(N - 1, v))
+
     def gen_nonce(self, rng):
         if rng.random() < 0.3:
             return rng.choice(ADV_NONCES)
@@ -100,12 +119,16 @@ class Sign(Engine):
             if prop == 'C13':
                 if r < 0.45:
                     S({'op': 'sign', 'key': rng.randrange(16), 'digest': self.gen_digest(rng), 'nonce': '%064x' % self.gen_nonce(rng)})
-                elif r < 0.65:
+                elif r < 0.62:
                     S({'op': 'verify_crafted', 'key': rng.randrange(16), 'digest': self.gen_digest(rng),
                        'kind': rng.choice(['valid', 'other-message', 'zero-r', 'zero-s', 'r=n', 's=n', 'twin', 'random', 'other-key', 'r+n',
                                             'pubkey-offcurve', 'pubkey-garbage', 'pubkey-empty', 'pubkey-hybrid', 'pubkey-offcurve-x-x']),
                        'nonce': '%064x' % self.gen_nonce(rng), 'rand': [gen.rhex(rng, 32), gen.rhex(rng, 32)]})
-                elif r < 0.72:
+                elif r < 0.70:
+                    # a signature of every length class, with the key that makes it valid obtained by recovery
+                    S({'op': 'verify_recovered', 'digest': self.gen_digest(rng), 'r': self.gen_sigint(rng), 's': self.gen_sigint(rng), 'recid': rng.randrange(2),
+                       'comp': rng.random() < 0.5, 'twist': rng.choice(['none', 'none', 'digest', 'r+1', 's+1', 'swap'])})
+                elif r < 0.75:
                     S({'op': 'verify_matrix', 'digest': self.gen_digest(rng), 'nonces': ['%064x' % self.gen_nonce(rng) for _ in range(4)],
                        'order': [rng.randrange(1 << 16) for _ in range(8)], 'extra_secret': '%064x' % self.gen_secret(rng)})
                 elif r < 0.85:
@@ -357,6 +380,45 @@ class Sign(Engine):
         ctx.fault('crafted-signature.' + kind)
         ctx.log(0, 0, 'crafted', '', '%s/%r' % (kind, want))
 
+    def _op_verify_recovered(self, a):
+        """(r, s) chosen first - any magnitude, so the DER form has any length from 8 to 72 bytes -
+        then the public key for which it is valid on this digest is recovered by the reference."""
+        ctx, K = self.ctx, self.K
+        digest = bytes.fromhex(a['digest'])
+        z = int.from_bytes(digest, 'big')
+        r, s = int(a['r'], 16), int(a['s'], 16)
+        Q = None
+        for bump in range(40):                  # the next r that is the x of a curve point
+            Q = EC.recover(z, r, s, a['recid'])
+            if Q is not None:
+                break
+            r += 1
+        if Q is None:
+            ctx.log(0, 0, 'recovered', '', 'skip')
+            return
+        vr, vs, vz = r, s, z
+        tw = a['twist']
+        if tw == 'digest':
+            vz = z ^ 1
+        elif tw == 'r+1':
+            vr = r + 1
+        elif tw == 's+1':
+            vs = s + 1
+        elif tw == 'swap':
+            vr, vs = s, r
+        want = EC.verify(Q, vz, vr, vs)
+        sig = EC.der_encode(vr, vs)
+        pub = K.CPubKey(EC.point_encode(Q, a['comp']))
+        try:
+            got = pub.verify(vz.to_bytes(32, 'big'), sig)
+        except Exception as e:
+            got = 'raised %s' % type(e).__name__
+        ctx.carry()
+        ctx.check(got is want, 'C13.verify-iff', 'verify of a %d-byte DER signature (r of %d bits, s of %d bits, %s) under the recovered key returned %r, reference ECDSA verification says %r'
+                  % (len(sig), vr.bit_length(), vs.bit_length(), 'unaltered' if tw == 'none' else 'altered: ' + tw, got, want), siglen=len(sig), want=want, twist=tw)
+        ctx.fault('recovered-key-signature.len%d' % (len(sig) // 8 * 8))
+        ctx.log(0, 0, 'recovered', '', '%d/%s/%r' % (len(sig), tw, want))
+
     def _op_verify_matrix(self, a):
         """Several public-key objects are parsed first, then used in another order: every (key object,
         signature) pair must verify exactly when the signature was made with that key."""
@@ -372,6 +434,7 @@ class Sign(Engine):
         for j, k in enumerate(ks):
             r, s_, _ = EC.sign_with_k(k['d'], z, int(a['nonces'][j % len(a['nonces'])], 16))
             sigs.append((r, s_))
+        junk0 = K.CPubKey(b'\x02' + bytes(32))              # an invalid key parsed before the valid ones
         pubs = [K.CPubKey(k['pub']) for k in ks]            # all parsed before any is used
         # an invalid key parsed last must not disturb the earlier ones either
         junk = K.CPubKey(b'\x04' + ks[0]['Q'][0].to_bytes(32, 'big') + bytes(32))
